@@ -1,0 +1,14 @@
+//go:build verif
+
+package tokenizer
+
+// VerifNextTokenHook, when non-nil, is called at the top of every token
+// dispatch with the current byte offset and the input length.
+// Verification builds only (-tags verif).
+var VerifNextTokenHook func(offset, inputLen int)
+
+func verifOnNextToken(t *Tokenizer) {
+	if h := VerifNextTokenHook; h != nil {
+		h(t.pos.Index, len(t.input))
+	}
+}
